@@ -32,7 +32,7 @@ def plan(tier, seed):
         return {'n': 9000 + total, 'deadline': 150, 'floor': {'distinct_nontrivial': 800, 'cuts_executed': 2000},
                 'exh': total}
     blocks, total = control.enum_space(KTHOROUGH)
-    return {'n': 150000 + total, 'deadline': 560, 'floor': {'distinct_nontrivial': 20000, 'cuts_executed': 50000},
+    return {'n': 260000 + total, 'deadline': 560, 'floor': {'distinct_nontrivial': 20000, 'cuts_executed': 50000},
             'exh': total}
 
 
